@@ -4,6 +4,9 @@ import (
 	"fmt"
 	"strings"
 
+	"github.com/robfig/soy/data"
+	"github.com/robfig/soy/soyhtml"
+
 	"verif/core"
 )
 
@@ -201,5 +204,59 @@ func OneErrorCases() []*Case {
 			// the valid part alone must be accepted: then the error above really is the only one
 			&Case{ID: "one-error-" + r.name + "-valid-part", Origin: "go", Files: []core.File{cont, neutral}, Globals: g, Shape: Shape{NF: 2}, MustAccept: r.name != "unknown-callee"})
 	}
+	return cases
+}
+
+func init() {
+	// a function the Go renderer knows and the JavaScript generator does not: compiling and
+	// rendering succeed, soyjs.Write fails ("unimplemented function") at the place of the call
+	soyhtml.Funcs["verifOnlyGo"] = soyhtml.Func{Apply: func(args []data.Value) data.Value { return args[0] }, ValidArgLengths: []int{1}}
+	soyhtml.PrintDirectives["verifOnlyGoDir"] = soyhtml.PrintDirective{
+		Apply: func(v data.Value, args []data.Value) data.Value { return v }, ValidArgLengths: []int{0}}
+}
+
+// FailingOperationCases (round 4): histories that contain FAILING operations.
+// A generation that fails half-way (inside a {let} value, a {param} value, a
+// data= expression, an [index], a print directive, a function argument) must
+// leave nothing behind that shows in the next generations: the good file of
+// the same bundle is generated right after the failing one in every Observe,
+// and the same failing bundles are also the History of good bundles, which
+// one of the fresh processes skips.
+func FailingOperationCases() []*Case {
+	good := core.File{Name: "b_good.soy", Text: "{namespace good}\n" +
+		"/**\n * @param? l\n * @param? m\n * @param? s\n * @param? n\n */\n{template .main}\n" +
+		"{let $t: 'T' + $l[$n - 1] + $m['k']/}{$t}{call .echo}{param p: 'P' + $l[0] + $s/}{/call}" +
+		"{call .echo data=\"['p': $m['j'] + $l[1]]\"/}{$l[$l[0]]}{$m[$s == 'x' ? 'k' : 'j'] |truncate:3}{if $l[$n] > 2}big{/if}" +
+		"{foreach $q in [$l[0], $l[1] + 1]}{$q}{/foreach}{css $m['k'], cls}\n{/template}\n" +
+		"/** @param? p */\n{template .echo}\n[{$p}]\n{/template}\n"}
+	bads := []struct{ name, body string }{
+		{"let", "{let $v: 'STALE-LET' + verifOnlyGo($s) + 'x'/}{$v}"},
+		{"param", "{call .echo}{param p: 'STALE-PARAM' + verifOnlyGo($s)/}{/call}"},
+		{"data", "{call .echo data=\"['p': 'STALE-DATA' + verifOnlyGo($s)]\"/}"},
+		{"index", "{$m['STALE-INDEX' + verifOnlyGo($s)]}"},
+		{"nested-index", "{let $v: 'STALE-NESTED' + $l[$l[verifOnlyGo(0)]]/}{$v}"},
+		{"directive", "{'STALE-DIR' + $s |verifOnlyGoDir}"},
+		{"directive-arg", "{$s |truncate:verifOnlyGo(5)}"},
+		{"if", "{if 'STALE-IF' + verifOnlyGo($s) == 'x'}a{/if}"},
+		{"css", "{css 'STALE-CSS' + verifOnlyGo($s), cls}"},
+		{"foreach", "{foreach $q in ['STALE-LIST', verifOnlyGo($s)]}{$q}{/foreach}"},
+	}
+	var cases []*Case
+	for _, b := range bads {
+		bad := core.File{Name: "a_bad_" + b.name + ".soy", Text: "{namespace bad" + strings.Replace(b.name, "-", "", -1) + "}\n" +
+			"/**\n * @param? l\n * @param? m\n * @param? s\n */\n{template .main}\nbefore {length($l)}{length(keys($m))}{$s} " + b.body + " after\n{/template}\n" +
+			"/** @param? p */\n{template .echo}\n[{$p}]\n{/template}\n"}
+		// the failing file and the good file in one bundle (generated in this order by Observe)
+		cases = append(cases, &Case{ID: "failgen-" + b.name, Origin: "go", Files: []core.File{bad, good},
+			Globals: map[string]interface{}{}, Shape: Shape{NF: 2}})
+		// the good bundle after a process history that contains the failing generation
+		cases = append(cases, &Case{ID: "failgen-history-" + b.name, Origin: "go", Files: []core.File{good},
+			Globals: map[string]interface{}{}, Shape: Shape{NF: 1}, History: [][]core.File{{bad}}})
+	}
+	// histories with a failing COMPILE and a failing RENDER before the good bundle
+	broken := core.File{Name: "broken.soy", Text: "{namespace broken}\n/** */\n{template .main}\n{let $v: 'STALE' + }\n{/template}\n"}
+	failing := core.File{Name: "failing.soy", Text: "{namespace failing}\n/** @param? s */\n{template .main}\n{let $v: 'STALE' + $s.nope.deeper/}{$v}{foreach $i in $s}{$i}{/foreach}\n{/template}\n"}
+	cases = append(cases, &Case{ID: "failhistory-compile-render", Origin: "go", Files: []core.File{good},
+		Globals: map[string]interface{}{}, Shape: Shape{NF: 1}, History: [][]core.File{{broken}, {failing}, {broken, good}}})
 	return cases
 }
